@@ -93,6 +93,7 @@ type CheckOpts struct {
 	Only    string // restrict to functions whose key contains this
 	Dump    string // directory to dump queries to
 	NoReplay bool
+	NoEvidence bool
 }
 
 type Evidence struct {
@@ -412,9 +413,11 @@ func finishCheck(o CheckOpts, w *World, reports []*OblReport, fnReports []FnRepo
 	}
 	ev := Evidence{PropertyID: o.Prop, Tier: o.Tier, Seed: o.Seed, Level: "proof", Coverage: cov, WallS: time.Since(start).Seconds(), Violations: len(violations),
 		Assumptions: propAssumptions(o.Prop, w, fnReports)}
-	os.MkdirAll(filepath.Join(o.Verif, "evidence"), 0o755)
-	data, _ := json.MarshalIndent(ev, "", " ")
-	os.WriteFile(filepath.Join(o.Verif, "evidence", o.Prop+".json"), data, 0o644)
+	if !o.NoEvidence {
+		os.MkdirAll(filepath.Join(o.Verif, "evidence"), 0o755)
+		data, _ := json.MarshalIndent(ev, "", " ")
+		os.WriteFile(filepath.Join(o.Verif, "evidence", o.Prop+".json"), data, 0o644)
+	}
 	fmt.Printf("govc: property %s: %d obligations, %d discharged, %d known findings, %d violations, %d canaries refuted, %.1fs\n",
 		o.Prop, obligations, discharged, len(knownSeen), len(violations), countCanaries(reports)["refuted"], time.Since(start).Seconds())
 	for _, u := range unsupported {
